@@ -683,6 +683,32 @@ def _alarm(signum, frame):
     raise Timeout()
 
 
+def _morph(cur, new):
+    """Make container cur equal to new without replacing cur (or the containers inside it that new
+    has at the same place)."""
+    if isinstance(cur, dict) and isinstance(new, dict):
+        for k in list(cur):
+            if k not in new:
+                del cur[k]
+        for k, v in new.items():
+            if k in cur and type(cur[k]) is type(v) and isinstance(v, (dict, list, bytearray)):
+                _morph(cur[k], v)
+            else:
+                cur[k] = v
+    elif isinstance(cur, list) and isinstance(new, list):
+        for i in range(min(len(cur), len(new))):
+            if type(cur[i]) is type(new[i]) and isinstance(new[i], (dict, list, bytearray)):
+                _morph(cur[i], new[i])
+            else:
+                cur[i] = new[i]
+        del cur[len(new):]
+        cur.extend(new[len(cur):])
+    elif isinstance(cur, bytearray):
+        cur[:] = new
+    else:
+        raise TypeError("cannot morph")
+
+
 class Driver:
     def __init__(self, codec, d):
         self.codec = codec
@@ -705,6 +731,32 @@ class Driver:
             if not isinstance(b, (bytes, bytearray)):
                 return False, [], "not-bytes"
             return True, list(b), ""
+        except Timeout:
+            return False, [], "Timeout"
+        except Exception as e:      # noqa
+            signal.setitimer(signal.ITIMER_VIRTUAL, 0)
+            return False, [], self.cls(e)
+        finally:
+            signal.setitimer(signal.ITIMER_VIRTUAL, 0)
+
+    def enc_inplace(self, a, b):
+        """Encode a, then turn the object's values into b WHERE THEY ARE (nested dicts updated, lists
+        edited, bytearrays overwritten - what a caller does that keeps a message and changes a field of
+        a part), and encode again: the octets are those of b."""
+        ok, _, err = self.enc(a)
+        if not ok:
+            return None
+        try:
+            _morph(self.env.c, copy.deepcopy(b))
+        except Exception:
+            return None
+        signal.setitimer(signal.ITIMER_VIRTUAL, 1.0)
+        try:
+            r = self.env.to_bytes()
+            signal.setitimer(signal.ITIMER_VIRTUAL, 0)
+            if not isinstance(r, (bytes, bytearray)):
+                return False, [], "not-bytes"
+            return True, list(r), ""
         except Timeout:
             return False, [], "Timeout"
         except Exception as e:      # noqa
@@ -768,6 +820,10 @@ def events_for(codec, d, rng, k_rand=3, n_short=6):
         ev.append(ev_enc("in-range" if consistent else "wrapper-length-unmet", vals, res))
         if res[0]:
             valid.append((vals, res[1]))
+            if len(valid) >= 2:
+                r2 = drv.enc_inplace(valid[-2][0], vals)
+                if r2 is not None:
+                    ev.append(ev_enc("in-range" if consistent else "wrapper-length-unmet", vals, r2))
             dres = decode("valid", res[1])
             if dres[0] and consistent and not degen:
                 ev.append({"e": "rt", "kind": "in-range", "vals": typed(vals), "raw": res[1],
@@ -856,6 +912,29 @@ def events_for(codec, d, rng, k_rand=3, n_short=6):
     return ev
 
 
+def _u(name, ln, pres=None, bo="big"):
+    return {"k": "uint", "name": name, "len": ln, "bo": bo, "signed": False, "offset": 0, "mult": 1, "form": "named",
+            "pres": pres or dict(ALWAYS), "lenfrom": dict(NONE), "valfrom": dict(NONE)}
+
+
+def _b(name, ln, pres=None):
+    return {"k": "buf", "name": name, "len": ln, "pres": pres or dict(ALWAYS), "lenfrom": dict(NONE), "lenauto": False}
+
+
+def _seq(name, fields, form="subclass"):
+    return {"k": "seq", "name": name, "len": 0, "pres": dict(ALWAYS), "lenfrom": dict(NONE), "lenauto": False, "form": form,
+            "item": {"check_len": True, "fields": fields}}
+
+
+# Definitions written by hand for shapes the random generator meets rarely: sequences whose items consist of
+# fixed-length fields only, one of them optional (records of two sizes in one sequence).
+CRAFTED = [
+    {"check_len": True, "fields": [_seq("f1", [_u("f2", 1), _u("f3", 2, {"op": "z", "field": "f2", "const": 0}), _b("f4", 2)])]},
+    {"check_len": True, "fields": [_u("f1", 1), _seq("f2", [_u("f3", 1), _b("f4", 3, {"op": "nz", "field": "f3", "const": 0})], form="kw")]},
+    {"check_len": True, "fields": [_seq("f1", [_u("f2", 1, bo="little"), _u("f3", 1, {"op": "ne", "field": "f2", "const": 7})])]},
+]
+
+
 def make_traces(toolkit, seed, start, count, k_rand, maxdepth=3):
     sys.path.insert(0, toolkit)
     codec = importlib.import_module("codec")
@@ -863,7 +942,7 @@ def make_traces(toolkit, seed, start, count, k_rand, maxdepth=3):
     traces, failures = [], []
     for i in range(start, start + count):
         rng = random.Random("%d/%d" % (seed, i))
-        d = DefGen(rng, maxdepth).definition()
+        d = copy.deepcopy(CRAFTED[i]) if i < len(CRAFTED) else DefGen(rng, maxdepth).definition()
         tid = "s%d-%d" % (seed, i)
         try:
             ev = events_for(codec, d, rng, k_rand)
